@@ -43,7 +43,7 @@ def gen_history(rng):
         elif c < 0.8:
             if live[i] > 0:
                 k = rng.randint(1, live[i])
-                idxs = sorted(rng.sample(range(live[i]), k), reverse=True)
+                idxs = rng.sample(range(live[i]), k)          # any order: the storage sorts a round itself (the model: sortDesc)
                 live[i] -= k
                 ops.append(['d', i, idxs])
             else:
